@@ -1526,6 +1526,8 @@ def gen_for_block(node, code, codegen):
     node.parent_routine.local_vars[step_var] = var_type
     node.parent_routine.local_vars[step_sign_var] = var_type
     node.parent_routine.local_vars[to_var] = var_type
+    codegen.compilation.check_scope_size(
+        node.parent_routine.local_vars, node.parent_routine, node)
 
     var = node.var.get_base_variable()
 
@@ -2008,6 +2010,8 @@ def gen_select_block(node, code, codegen):
     select_var = codegen.get_label('select_var')
     var_type = node.value.type
     node.parent_routine.local_vars[select_var] = var_type
+    codegen.compilation.check_scope_size(
+        node.parent_routine.local_vars, node.parent_routine, node)
 
     codegen.cur_blocks.append(
         SelectBlockContext('select', end_label, select_var, var_type))
